@@ -68,6 +68,7 @@ func runC02(c *Ctx) {
 	multiComplete(c, a, "C02.multi-complete")
 	c.Borrow("C15", map[string]string{"C15.latest": "C02.latest"}, "the future-timestamp rejection compares with the target's latest accepted timestamp, which must be the greatest accepted one")
 	gnmiDispatch(c, a, "C02.dispatch")
+	c.Borrow("C09", map[string]string{"C09.prune-guard": "C02.delete-prune", "C09.select": "C02.delete-select", "C09.conditional": "C02.delete-conditional"}, "'a delete at time T removes exactly the matching leaves whose stored timestamp is older than T': the tree must unlink exactly the leaves the timestamp condition accepted - a branch pruned on the verdict of one child takes newer leaves with it")
 	c.Rule("C02.del-honoured", "in ctree.internalDelete the leaf arm calls f and reports deletion only on the true edge of condition(value)")
 
 	nParam := ssa.Value(param(a.gnmiUpdate, 1))
